@@ -376,7 +376,21 @@ func (s *synth) selSet(t *TShape, items []synItem) []*selNode {
 				}
 				parts = append(parts, s.fieldNode(t, a))
 			}
-			x := &selNode{kind: "inline", cond: "X" + num, applies: false, body: parts}
+			// the condition that does not apply: the other object type, an interface only it implements
+			// (J<n>), or a union of which only it is a member (V<n>; a union has no fields, so its body
+			// is typed again) — chosen without drawing from the generator
+			// a key of its own in front, so that a condition that wrongly applies always shows in the data
+			s.n++
+			mark := &selNode{kind: "field", key: "na" + strconv.Itoa(s.n), name: "__typename", alias: true}
+			x := &selNode{kind: "inline", cond: "X" + num, applies: false, body: append([]*selNode{mark}, parts...)}
+			switch (s.n + len(sels) + len(parts)) % 3 {
+			case 1:
+				x.cond = "J" + num
+			case 2:
+				s.n++
+				mark2 := &selNode{kind: "field", key: "na" + strconv.Itoa(s.n), name: "__typename", alias: true}
+				x = &selNode{kind: "inline", cond: "V" + num, applies: false, body: []*selNode{mark2, x}}
+			}
 			pos := s.r.Intn(len(sels) + 1)
 			sels = append(sels[:pos], append([]*selNode{x}, sels[pos:]...)...)
 			bare = append(bare[:pos], append([]bool{true}, bare[pos:]...)...)
@@ -472,6 +486,9 @@ func (c *Case) Selections() []*selNode {
 	s := &synth{r: hx.NewRand(c.Syntax)}
 	sels := s.selSet(c.Shape, allItems(c.Shape, false))
 	sels, _ = addUncoercibleDirective(sels, hx.NewRand(c.Syntax^0x9e3779b97f4a7c15))
+	if c.Syntax&4 != 0 {
+		sels = variablise(sels, hx.NewRand(c.Syntax^0x51ed270b8d5a3c11))
+	}
 	return sels
 }
 
@@ -486,11 +503,14 @@ func (c *Case) Document() string {
 	if c.Mutation {
 		b.WriteString("mutation ")
 	}
-	if usesNullVar(sels) {
-		if !c.Mutation {
+	if c.Subscription {
+		b.WriteString("subscription ")
+	}
+	if decl := varDeclarations(sels, c.Mutation); decl != "" {
+		if !c.Mutation && !c.Subscription {
 			b.WriteString("query ")
 		}
-		b.WriteString("($" + NullVar + ":Boolean=" + strconv.FormatBool(c.Mutation) + ") ")
+		b.WriteString(decl)
 	}
 	nodesText(&b, sels)
 	var defs []string
